@@ -25,11 +25,12 @@ pub fn install_panic_hook() {
             } else {
                 "<non-string panic>".to_string()
             };
-            if GUARD_DEPTH.with(|d| d.get()) == 0 {
+            // (try_with: the hook may run while a thread's locals are being destroyed)
+            if GUARD_DEPTH.try_with(|d| d.get()).unwrap_or(1) == 0 {
                 // a panic of the harness itself (not of code under test): never silent
                 eprintln!("HARNESS PANIC at {}: {}", loc, msg);
             }
-            LAST_PANIC.with(|p| *p.borrow_mut() = Some((loc, msg)));
+            let _ = LAST_PANIC.try_with(|p| *p.borrow_mut() = Some((loc, msg)));
         }));
     });
 }
@@ -156,7 +157,12 @@ pub fn hex_short(b: &[u8]) -> String {
     if b.len() <= 96 {
         hex(b)
     } else {
-        format!("{}..(+{} bytes)..{}", hex(&b[..64]), b.len() - 80, hex(&b[b.len() - 16..]))
+        format!(
+            "{}..(+{} bytes)..{}",
+            hex(&b[..64]),
+            b.len() - 80,
+            hex(&b[b.len() - 16..])
+        )
     }
 }
 
@@ -206,7 +212,11 @@ pub fn expand_bytes(seed: u64, len: usize, alphabet: u8) -> Vec<u8> {
             word = splitmix64(s);
         }
         let b = (word >> ((i % 8) * 8)) as u8;
-        out.push(if alpha.is_empty() { b } else { alpha[b as usize % alpha.len()] });
+        out.push(if alpha.is_empty() {
+            b
+        } else {
+            alpha[b as usize % alpha.len()]
+        });
     }
     out
 }
